@@ -32,11 +32,11 @@ META = dict(
          "near rule.",
     design_ref="4/C10")
 
-KINDS_Q = ["near", "ladder", "near", "two", "half", "wrong", "near", "ladder"]
+KINDS_Q = ["near", "ladder", "near", "two", "half", "wrong", "tf5", "spot", "near", "fast"]
 
 
 def run(ctx):
-    ctx.assumptions += ["futures account, cross margin, 1m trading routes, 1-2 symbols, no order rejected for margin",
+    ctx.assumptions += ["futures (cross margin) and fee-free spot accounts, 1m and 5m trading routes, 1-2 symbols, both simulators, no order rejected for margin",
                         "declarations are edited only in go_long/go_short, on_open/increased/reduced_position, update_position "
                         "(the hooks the property quantifies over); after() is the observation point",
                         "price exactly 0.015 % away from the current price: knife edge, skipped and counted"]
@@ -94,7 +94,7 @@ def run(ctx):
         samples.append({"kind": "R: model behaviour replayed on the real Strategy", "actions": [a["a"] for a in sim_items[t0["id"] - 200000]["hist"]],
                         "events": [{k: v for k, v in e.items() if k != "act"} for e in t0["ev"][:14]]})
     # ---------------------------------------------------------------- T
-    items = K.vivo_items(ctx, ctx.pick(110, 2400), KINDS_Q, ctx.pick(240, 400))
+    items = K.vivo_items(ctx, ctx.pick(130, 1500), KINDS_Q, ctx.pick(240, 400))
     traces, by_id = K.run_vivo(ctx, items)
     bad_t, st_t = K.judge(ctx, "TraceRouting", traces, "T", by_id, parts=ctx.pick(8, 14))
     nsub = sum(x[2] for x in st_t)
